@@ -33,6 +33,16 @@ def ho(prop, q=40, t=600, shards_q=4, shards_t=16, flavors=None):
 ASYNC_ALL = "tokio-mt,tokio-ct,async-std,thread-per-task"
 
 
+def also_async(stage_list):
+    """thorough tier: every lockstep / hostile stage is repeated against AsyncCache on the four executors"""
+    out = list(stage_list)
+    for st in stage_list:
+        if st["engine"] in ("lockstep", "hostile") and "--flavors" not in st.get("args", []) and not st.get("sanitizer"):
+            n = "300" if st["engine"] == "lockstep" else "60"
+            out.append(dict(engine=st["engine"], tiers=["thorough"], shards=dict(thorough=8), args=["--thorough-n", n, "--flavors", ASYNC_ALL], timeout=dict(thorough=3600)))
+    return out
+
+
 def tsan(engine, n=30, shards=4, extra=()):
     """the same workload under ThreadSanitizer (thorough tier only; nightly, -Zbuild-std)"""
     return dict(engine=engine, sanitizer="tsan", tiers=["thorough"], shards=dict(thorough=shards), args=["--thorough-n", str(n)] + list(extra), timeout=dict(thorough=3600))
@@ -234,3 +244,7 @@ PLAN = {
         assumptions=[],
     ),
 }
+
+for _p, _pl in PLAN.items():
+    if _p != "C19":
+        _pl["stages"] = also_async(_pl["stages"])
